@@ -59,6 +59,8 @@ def run(repo, tier) -> Result:
         for s in fa.sites("loop"):
             count = s.data.get("count")
             if count is None:
+                # an iteration whose length the analysis cannot express (slice of a range, reversed(...), generator of unknown source)
+                res.fail("R-BOUND", finding("C07", "R-BOUND", fi, s.node, f"{s.data.get('what')} over {s.data.get('iter')!r}: no bound in terms of the configuration can be derived for this iteration (e.g. `[-n:]` with n == 0 is the whole history)"))
                 continue
             facts, extra = public_context(s)
             ok, why = _count_bounded(count, facts, extra)
